@@ -150,6 +150,32 @@ def compare_model(m, r):
     return ""
 
 
+def twin_case(rng, opts):
+    """(program, input stacks): equal stacks in a row, or stacks that are equal once a binder has popped the value they differ in."""
+    g = zgen.Gen(rng, maxdepth=rng.randint(1, opts.get("maxdepth", 4)), err_rate=0.03)
+    depth = rng.randint(0, 2)
+    base, ts = tagged_inputs(rng, 2, depth, g)
+    s0 = [("str", [b"#0"])] + base[0][1:]
+    s1 = [("str", [b"#0"])] + base[1][1:]
+    if rng.random() < 0.5:
+        stacks = rng.choice([[s0, s0], [s0, s0, s1, s1], [s0, s1, s1, s0], [s0, s0, s0]])
+        prog = g.program(ts)
+    else:
+        vals = rng.choice([[0, 1], [1, 0, 0, 1], [0, 0, 1], [2, 1, 2], [1, 1]])
+        stacks = [list(s0) + [("int", v, "dec")] for v in vals]
+        nm = "Tw"
+        body = g.program(ts, names={nm: "c"})
+        k = rng.random()
+        if k < 0.4:
+            # the name decides a condition while the stack is the same
+            a, b = g.program(ts, names={nm: "c"}), g.program(ts, names={nm: "c"})
+            body = ("if", ("infix", ("read", nm), rng.choice(["==", "<", "!="]), ("int", 1, "dec")), a, b)
+        elif k < 0.6:
+            body = ("cat", [("sub", rng.random() < 0.5, (), ("infix", ("read", nm), "==", ("int", rng.randint(0, 2), "dec"))), body])
+        prog = ("paren", (nm,), body)
+    return prog, stacks
+
+
 def job(payload):
     kind, seed, count, opts = payload
     d = common.get_driver()
@@ -165,6 +191,10 @@ def job(payload):
             stacks, ts = tagged_inputs(rng, n, depth, g) if n else ([], [])
             prog = g.program(ts)
             cases.append((prog, stacks))
+    elif kind == "twins":
+        # EQUAL stacks in a row (no unique tag to tell them apart): the same stack twice must give everything twice; and stacks that are
+        # equal once a binder has popped the one value they differ in, where the program reads that name -- in conditions, assertions, closures
+        cases = [twin_case(rng, opts) for i in range(count)]
     elif kind == "focus":
         # one word applied to a STREAM of operand tuples in which an operand often comes "the same again" or changes by little:
         # regular expressions that compile and that cannot be compiled (each stack gets its own verdict and its own diagnostic),
@@ -262,6 +292,8 @@ def run(chk):
         jobs.append(("random", chk.seed * 1000003 + i, per, {"maxdepth": 4 if i % 3 else 5}))
     for i in range(4 if quick else 80):
         jobs.append(("focus", chk.seed * 7368787 + i, 120, {}))
+    for i in range(12 if quick else 300):
+        jobs.append(("twins", chk.seed * 9576890767 + i, 150, {"maxdepth": 3}))
     Z = zenum.enum(4 if quick else 5, full=True)
     progs = [p for k in sorted(Z) for p in Z[k]]
     if not quick and len(progs) > 80000:
